@@ -489,7 +489,7 @@ func (w *World) applyContract(fr *Frame, st *State, ct *Contract, names []string
 			if len(props) == 0 && w.topContract != nil {
 				props = w.topContract.Props
 			}
-			w.oblige("call.pre", fmt.Sprintf("call.%s.%d.pre.%s", label, ord, lbl), st.cond, w.evalBool(env, rq.Expr), rq.Star, props)
+			w.oblige("call.pre", fmt.Sprintf("call.%s.%d.pre.%s", label, ord, lbl), st.cond, w.skolemGoal(env, rq.Expr), rq.Star, props)
 		}
 	}
 	// result values
@@ -514,7 +514,20 @@ func (w *World) applyContract(fr *Frame, st *State, ct *Contract, names []string
 		if en.Withdrawn {
 			continue
 		}
-		w.sc.assume(implies(st.cond, w.evalBool(post, en.Expr)))
+		func() {
+			// a clause that mentions a type of a package that is not loaded
+			// here is not assumed (fewer assumptions: sound)
+			defer func() {
+				if r := recover(); r != nil {
+					if u, ok := r.(unsupportedErr); ok && ct.Trusted && strings.Contains(u.msg, "unknown type") {
+						return
+					}
+					panic(r)
+				}
+			}()
+			w.sc.assume(implies(st.cond, w.evalBool(post, en.Expr)))
+			w.noteQuantFacts(st.cond, post, en.Expr)
+		}()
 	}
 	w.usedContracts[ct.Kind+" "+ct.Name] = ct
 	return res
